@@ -62,6 +62,10 @@ def check_case(ca, cb, flag, acc):
         for v in (r.avgOverlappingAlignment1Coverage, r.avgOverlappingAlignment2Coverage, r.avgOverlappingIdentity):
             if not 0 <= v <= 1:
                 bad('average-out-of-bounds', str(v))
+        r3 = cmpr.compare(A, B)          # third call on the same comparer: nothing may be remembered from the earlier ones
+        if (r3.overlapping, r3.nonOverlapping, r3.firstOnly, r3.secondOnly, r3.avgOverlappingIdentity) != (
+                r.overlapping, r.nonOverlapping, r.firstOnly, r.secondOnly, r.avgOverlappingIdentity):
+            bad('repeated-compare-differs', '')
         if (r.firstOnly, r.secondOnly) != (r2.secondOnly, r2.firstOnly):
             bad('swap-counts', '')
         m1 = {(x.queryId, x.referenceId): x for x in r.rows if x.type == T.BOTH}
@@ -79,7 +83,7 @@ def check_case(ca, cb, flag, acc):
                     bad('not-reflexive', '%s %s %s' % (row.identity, row.alignment1Coverage, row.alignment2Coverage))
     if acc is not None:
         acc.evals += 1
-        acc.transitions += 2
+        acc.transitions += 3
         if r is not None:
             acc.state((r.overlapping, r.nonOverlapping, r.firstOnly, r.secondOnly, round(r.avgOverlappingIdentity, 6),
                        round(r.avgOverlappingAlignment1Coverage, 6)))
